@@ -9,6 +9,7 @@ package main
 import (
 	"fmt"
 	"os"
+	"os/signal"
 	"strings"
 	"sync"
 	"syscall"
@@ -345,37 +346,32 @@ func classify(s []relayEv) string {
 // A history is a list of groups; the events of one group are released at the
 // same virtual instant (concurrent senders).
 func runTermMon(c *Case, r *Run, groups []string) {
-	m := &termMonitor{sigChan: make(chan os.Signal), handlerChan: make(chan int)}
+	// The monitor is built by the program's own constructor and driven only
+	// through what the program itself uses: onHandlerStart / onHandlerFinish
+	// (called by connection handlers), the signal channel, and wait().
+	m := newTermMonitor()
+	defer signal.Stop(m.sigChan)
 	abort := make(chan struct{})
 	mainDone := make(chan struct{})
 	var firstSig os.Signal
 	var secondRet os.Signal
-	phase2 := false
 	c.Go(func() { close(mainDone) }, func() {
 		// what main() does after set-up
 		if firstSig = m.wait(false); firstSig == syscall.SIGTERM {
 			return
 		}
-		phase2 = true
 		secondRet = m.wait(true)
 	})
 	var mu sync.Mutex
-	consumed := make([][]byte, len(groups)) // per group: events whose send completed
+	consumed := make([][]byte, len(groups)) // per group: signals that were received by the monitor
 	var wg sync.WaitGroup
 	send := func(gi int, ev byte) {
 		defer wg.Done()
-		ok := false
 		switch ev {
-		case 'S', 'F':
-			v := 1
-			if ev == 'F' {
-				v = -1
-			}
-			select {
-			case m.handlerChan <- v:
-				ok = true
-			case <-abort:
-			}
+		case 'S':
+			m.onHandlerStart() // may block for as long as nobody is in wait()
+		case 'F':
+			m.onHandlerFinish()
 		case 'I', 'T':
 			var s os.Signal = syscall.SIGINT
 			if ev == 'T' {
@@ -383,14 +379,11 @@ func runTermMon(c *Case, r *Run, groups []string) {
 			}
 			select {
 			case m.sigChan <- s:
-				ok = true
+				mu.Lock()
+				consumed[gi] = append(consumed[gi], ev)
+				mu.Unlock()
 			case <-abort:
 			}
-		}
-		if ok {
-			mu.Lock()
-			consumed[gi] = append(consumed[gi], ev)
-			mu.Unlock()
 		}
 	}
 	// release group after group, each at its own virtual instant, and let the
@@ -418,14 +411,14 @@ func runTermMon(c *Case, r *Run, groups []string) {
 	mu.Unlock()
 	seq := strings.Join(seqParts, ",")
 
-	// ---- model: the order in which the monitor receives the events of one
-	// instant is the scheduler's choice, so the observation (which events of
-	// every group were consumed, and whether main has returned) is accepted if
+	// ---- model: the order in which the monitor sees the events of one
+	// instant is the scheduler's choice, so the observation (which signals of
+	// every group were received, and whether main has returned) is accepted if
 	// SOME order within the groups explains it.
 	r.Count("evaluations", 1)
 	r.Count("termmon_histories", 1)
 	hist := strings.Join(groups, ",")
-	wit := map[string]any{"history": hist, "consumed": seq, "returned": returned}
+	wit := map[string]any{"history": hist, "signals_received": seq, "returned": returned}
 	explained, whys := tmExplain(groups, seqParts, returned)
 	// what the script order itself (first linearization) demands, for the message
 	_, _, mustReturn, why, active := tmRun(strings.Join(groups, ""))
@@ -433,11 +426,11 @@ func runTermMon(c *Case, r *Run, groups []string) {
 	if !explained {
 		switch {
 		case !returned && mustReturn:
-			c.Violation("termmon/shutdown-does-not-complete/"+slug(why), fmt.Sprintf("history %s (consumed %q): %s, but the main goroutine is still blocked in wait() at quiescence (handler count in the model: %d)", hist, seq, why, active), wit)
+			c.Violation("termmon/shutdown-does-not-complete/"+slug(why), fmt.Sprintf("history %s (signals received %q): %s, but the main goroutine is still blocked in wait() at quiescence (handler count in the model: %d)", hist, seq, why, active), wit)
 		case returned && !mustReturn:
-			c.Violation("termmon/returned-without-cause/"+cls, fmt.Sprintf("history %s (consumed %q): wait returned (first=%v second=%v) although no signal requires it and the handler count is %d", hist, seq, firstSig, secondRet, active), wit)
+			c.Violation("termmon/returned-without-cause/"+cls, fmt.Sprintf("history %s (signals received %q): wait returned (first=%v second=%v) although no signal requires it and the handler count is %d", hist, seq, firstSig, secondRet, active), wit)
 		default:
-			c.Violation("termmon/returned-at-wrong-point/"+cls, fmt.Sprintf("history %s: consumed %q, returned=%v is not explained by any order of the simultaneous events", hist, seq, returned), wit)
+			c.Violation("termmon/returned-at-wrong-point/"+cls, fmt.Sprintf("history %s: signals received %q, returned=%v is not explained by any order of the simultaneous events", hist, seq, returned), wit)
 		}
 	} else if returned {
 		for _, w := range whys {
@@ -453,13 +446,13 @@ func runTermMon(c *Case, r *Run, groups []string) {
 	} else {
 		r.Count("termmon_still_waiting_as_expected", 1)
 	}
-	_ = phase2
 	r.Distinct("nontrivial", "tm/"+hist)
 	r.Distinct("termmon_consumed_orders", hist+"/"+seq)
-	// clean up
+	// clean up: pending signal senders give up; main, if still waiting, is
+	// ended by a SIGTERM; handler calls that are still blocked (nobody is in
+	// wait() any more) are drained by one more waiter, after main has gone.
 	close(abort)
 	if !returned {
-		// unblock main: a SIGTERM always ends it
 		go func() {
 			select {
 			case m.sigChan <- syscall.SIGTERM:
@@ -468,7 +461,23 @@ func runTermMon(c *Case, r *Run, groups []string) {
 		}()
 	}
 	<-mainDone
+	stop := make(chan struct{})
+	drained := make(chan struct{})
+	go func() {
+		defer close(drained)
+		for {
+			m.wait(false)
+			select {
+			case <-stop:
+				return
+			default:
+			}
+		}
+	}()
 	wg.Wait()
+	close(stop)
+	m.sigChan <- syscall.SIGTERM
+	<-drained
 }
 
 // tmRun feeds a sequence to the model and reports after how many events main
@@ -536,7 +545,7 @@ func tmExplain(groups []string, consumed []string, returned bool) (bool, []strin
 			if !done {
 				used = len(p)
 			}
-			if !sameMultiset(p[:used], []byte(consumed[gi])) {
+			if !sameMultiset(signalsOf(p[:used]), []byte(consumed[gi])) {
 				return
 			}
 			if rec(gi+1, prefix+string(p[:used])) {
@@ -546,6 +555,16 @@ func tmExplain(groups []string, consumed []string, returned bool) (bool, []strin
 		return ok
 	}
 	return rec(0, ""), whys
+}
+
+func signalsOf(p []byte) []byte {
+	var o []byte
+	for _, x := range p {
+		if x == 'I' || x == 'T' {
+			o = append(o, x)
+		}
+	}
+	return o
 }
 
 func permute(a []byte, f func([]byte)) {
@@ -718,6 +737,9 @@ func TestCheck(t *testing.T) {
 	}
 
 	// termination monitor histories
+	// (os/signal starts its dispatch goroutine on first use; that must not
+	// happen inside a bubble)
+	signal.Notify(make(chan os.Signal, 1), syscall.SIGUSR2)
 	maxH := r.Pick(5, 6)
 	var hs []string
 	for n := 1; n <= maxH; n++ {
@@ -759,6 +781,35 @@ func TestCheck(t *testing.T) {
 						}()
 						synctest.Test(c.T, func(t *testing.T) { runTermMon(c, r, g) })
 					}()
+				}
+			}
+		})
+	}
+
+	// the same instant, many times: histories in which the last handler
+	// finishes at the very instant the shutdown request arrives are repeated
+	// so that the scheduler's choices inside that instant (finish before /
+	// between / after the monitor's own check-then-block steps) get sampled
+	hot := [][]string{{"S", "IF"}, {"SS", "F", "IF"}, {"S", "S", "IFF"}, {"SS", "IF", "F"}, {"S", "FI"}, {"S", "I", "SF", "F"}}
+	reps := r.Pick(1500, 20000)
+	for k := 0; k < 8; k++ {
+		k := k
+		r.Case(fmt.Sprintf("termmon-repeat/%d", k), func(c *Case) {
+			for i := 0; i < reps; i++ {
+				g := hot[(i+k)%len(hot)]
+				stop := false
+				func() {
+					defer func() {
+						if e := recover(); e != nil {
+							c.Violation("termmon/panic-or-wedge", fmt.Sprintf("%v; history %v", e, g), nil)
+							stop = true
+						}
+					}()
+					synctest.Test(c.T, func(t *testing.T) { runTermMon(c, r, g) })
+				}()
+				r.Count("termmon_repeated_same_instant_histories", 1)
+				if stop {
+					break
 				}
 			}
 		})
